@@ -175,6 +175,17 @@ def run_field(shard):
                     m = star('C', [])
                     m.atom(1)._implicit_hydrogens = hm
                     compare(acc, q, m, 'hydrogens (%s) query=%s molecule=%s' % (kname, hq, hm))
+        # isotope x radical x charge together (the query mask combines them in one word)
+        from chython.periodictable import Element
+        for z_ in (6, 17, 26, 92):
+            cls_ = Element.from_atomic_number(z_)
+            ref_ = cls_().mdl_isotope
+            isos = [None] + [i_ for i_ in (ref_, ref_ + 1, ref_ - 1) if i_ in cls_().isotopes_masses][:2]
+            grid = [(i_, r_, c_) for i_ in isos for r_ in (False, True) for c_ in (-1, 0, 1)]
+            for qi_, qr_, qc_ in grid:
+                q = q1(qatom(z_, isotope=qi_, is_radical=qr_, charge=qc_))
+                for mi_, mr_, mc_ in grid:
+                    compare(acc, q, star(cls_.__name__, [], isotope=mi_, charge=mc_, is_radical=mr_), 'isotope/radical/charge product Z=%d query=(%s,%s,%d) molecule=(%s,%s,%d)' % (z_, qi_, qr_, qc_, mi_, mr_, mc_))
         fe = {1: smiles('C[Fe]C'), 2: smiles('C=[Fe]'), 3: smiles('C#[Fe]')}
         for kname, mk_ in (('any-atom', lambda **kw: qatom(kind='A', **kw)), ('list', lambda **kw: qatom(symbols=('C', 'Fe'), **kw)), ('any-metal', lambda **kw: qatom(kind='M', **kw))):
             for r in range(0, 5):
